@@ -1,7 +1,276 @@
 /-
-Proof/JqOutput — helper lemmas for Props/C11 and Props/C27 over Model/JqOutput.
+Proof/JqOutput — helper lemmas for Props/C11 over Model/JqOutput: whitespace skipping, number
+tokens, UTF-8 and `\\uXXXX` read-back of single characters and of whole string bodies.
 -/
 import SuccinctlyVerif.Model.JqOutput
 namespace SV.JqOut
+
+
+/-! ### whitespace -/
+
+theorem skipWs_append_ws (w s : Bytes) (h : w.all isWs = true) : skipWs (w ++ s) = skipWs s := by
+  induction w with
+  | nil => rfl
+  | cons b w ih =>
+    simp only [List.all_cons, Bool.and_eq_true] at h
+    simp [skipWs, h.1, ih h.2]
+
+theorem skipWs_cons_nonws (b : UInt8) (s : Bytes) (h : isWs b = false) : skipWs (b :: s) = b :: s := by
+  simp [skipWs, h]
+
+theorem indentOf_ws (u : Bytes) (hu : u.all isWs = true) (n : Nat) : (indentOf u n).all isWs = true := by
+  induction n with
+  | zero => rfl
+  | succ n ih => simp [indentOf, List.all_append, hu, ih]
+
+theorem gap_ws (c : Cfg) (hu : c.unit.all isWs = true) (lvl : Nat) : (gap c lvl).all isWs = true := by
+  unfold gap
+  split
+  · rfl
+  · simp [List.all_cons, indentOf_ws c.unit hu lvl, isWs]
+
+theorem skipWs_gap (c : Cfg) (hu : c.unit.all isWs = true) (lvl : Nat) (s : Bytes) :
+    skipWs (gap c lvl ++ s) = skipWs s := skipWs_append_ws _ _ (gap_ws c hu lvl)
+
+/-! ### numbers -/
+
+theorem validNum_numChars (s : Bytes) (h : validNum s = true) : s.all isNumChar = true := by
+  unfold validNum at h
+  simp only [Bool.and_eq_true] at h
+  exact h.1
+
+theorem validNum_ne_nil (s : Bytes) (h : validNum s = true) : s ≠ [] := by
+  intro hs; subst hs; simp [validNum] at h
+
+theorem u8_forall (p : UInt8 → Prop) (h : ∀ i : Fin 256, p (UInt8.ofNat i.val)) : ∀ b, p b := by
+  intro b
+  have := h ⟨b.toNat, b.toNat_lt⟩
+  simpa using this
+
+theorem numChar_not_ws (b : UInt8) (h : isNumChar b = true) : isWs b = false := by
+  revert h; revert b
+  apply u8_forall
+  decide +kernel
+
+theorem takeNum_append (t r : Bytes) (ht : t.all isNumChar = true)
+    (hr : ∀ b r', r = b :: r' → isNumChar b = false) : takeNum (t ++ r) = t ∧ dropNum (t ++ r) = r := by
+  induction t with
+  | nil =>
+    cases r with
+    | nil => simp [takeNum, dropNum]
+    | cons b r' => simp [takeNum, dropNum, hr b r' rfl]
+  | cons b t ih =>
+    simp only [List.all_cons, Bool.and_eq_true] at ht
+    simp [takeNum, dropNum, ht.1, ih ht.2]
+
+
+
+theorem char_range (c : Char) : c.toNat < 0xD800 ∨ (0xE000 ≤ c.toNat ∧ c.toNat < 0x110000) := by
+  have h := c.valid
+  simp only [UInt32.isValidChar, Nat.isValidChar] at h
+  simp only [Char.toNat]
+  omega
+
+theorem toNat_ofNat_lt (k : Nat) (h : k < 256) : (UInt8.ofNat k).toNat = k := by
+  simp [UInt8.toNat_ofNat']; omega
+
+theorem pStr_utf8 (c : Char) (s : Bytes) (h : mustEscape c = false) :
+    pStr (utf8Enc c ++ s) = consC c false (pStr s) := by
+  have hr := char_range c
+  have hc : Char.ofNat c.toNat = c := Char.ofNat_toNat c
+  simp only [mustEscape, Bool.or_eq_false_iff, decide_eq_false_iff_not] at h
+  obtain ⟨⟨h1, h2⟩, h3⟩ := h
+  unfold utf8Enc
+  simp only []
+  split
+  · next hlt =>
+    simp only [List.cons_append, List.nil_append]
+    rw [pStr.eq_def]
+    simp only [toNat_ofNat_lt c.toNat (by omega : c.toNat < 256)]
+    simp [h2, h3, hlt, hc]
+    omega
+  · next hge =>
+    split
+    · next hlt =>
+      simp only [List.cons_append, List.nil_append]
+      rw [pStr.eq_def]
+      simp only [toNat_ofNat_lt (0xC0 + c.toNat / 64) (by omega), toNat_ofNat_lt (0x80 + c.toNat % 64) (by omega)]
+      rw [if_neg (by omega), if_neg (by omega), if_neg (by omega), if_neg (by omega), if_neg (by omega), if_pos (by omega)]
+      have hcont : isContN (0x80 + c.toNat % 64) = true := by simp [isContN]; omega
+      simp only [hcont, if_true]
+      have : (0xC0 + c.toNat / 64 - 0xC0) * 64 + (0x80 + c.toNat % 64 - 0x80) = c.toNat := by omega
+      rw [this, hc]
+    · next hge2 =>
+      split
+      · next hlt =>
+        simp only [List.cons_append, List.nil_append]
+        rw [pStr.eq_def]
+        simp only [toNat_ofNat_lt (0xE0 + c.toNat / 4096) (by omega),
+          toNat_ofNat_lt (0x80 + c.toNat / 64 % 64) (by omega), toNat_ofNat_lt (0x80 + c.toNat % 64) (by omega)]
+        rw [if_neg (by omega), if_neg (by omega), if_neg (by omega), if_neg (by omega), if_neg (by omega),
+          if_neg (by omega), if_pos (by omega)]
+        have hm : (0xE0 + c.toNat / 4096 - 0xE0) * 4096 + (0x80 + c.toNat / 64 % 64 - 0x80) * 64
+            + (0x80 + c.toNat % 64 - 0x80) = c.toNat := by omega
+        have hc1 : isContN (0x80 + c.toNat / 64 % 64) = true := by simp [isContN]; omega
+        have hc2 : isContN (0x80 + c.toNat % 64) = true := by simp [isContN]; omega
+        simp only [hm, hc1, hc2, hc]
+        have h4 : decide (0x800 ≤ c.toNat) = true := by simp; omega
+        have h5 : (decide (0xD800 ≤ c.toNat) && decide (c.toNat < 0xE000)) = false := by
+          simp only [Bool.and_eq_false_iff, decide_eq_false_iff_not]; omega
+        simp [h4, h5]
+      · next hge3 =>
+        simp only [List.cons_append, List.nil_append]
+        rw [pStr.eq_def]
+        simp only [toNat_ofNat_lt (0xF0 + c.toNat / 262144) (by omega),
+          toNat_ofNat_lt (0x80 + c.toNat / 4096 % 64) (by omega),
+          toNat_ofNat_lt (0x80 + c.toNat / 64 % 64) (by omega), toNat_ofNat_lt (0x80 + c.toNat % 64) (by omega)]
+        rw [if_neg (by omega), if_neg (by omega), if_neg (by omega), if_neg (by omega), if_neg (by omega),
+          if_neg (by omega), if_neg (by omega), if_pos (by omega)]
+        have hm : (0xF0 + c.toNat / 262144 - 0xF0) * 262144 + (0x80 + c.toNat / 4096 % 64 - 0x80) * 4096
+            + (0x80 + c.toNat / 64 % 64 - 0x80) * 64 + (0x80 + c.toNat % 64 - 0x80) = c.toNat := by omega
+        have hc0 : isContN (0x80 + c.toNat / 4096 % 64) = true := by simp [isContN]; omega
+        have hc1 : isContN (0x80 + c.toNat / 64 % 64) = true := by simp [isContN]; omega
+        have hc2 : isContN (0x80 + c.toNat % 64) = true := by simp [isContN]; omega
+        simp only [hm, hc0, hc1, hc2, hc]
+        have h4 : decide (0x10000 ≤ c.toNat) = true := by simp; omega
+        have h5 : decide (c.toNat < 0x110000) = true := by simp; omega
+        simp [h4, h5]
+
+
+theorem hexVal_hexDig' (d : Nat) (h : d < 16) : hexVal (hexDig d) = some d := by
+  unfold hexDig hexVal
+  split
+  · next hlt =>
+    simp only [toNat_ofNat_lt (0x30 + d) (by omega)]
+    rw [if_pos (by omega)]
+    exact congrArg some (by omega)
+  · next hge =>
+    simp only [toNat_ofNat_lt (0x57 + d) (by omega)]
+    rw [if_neg (by omega), if_pos (by omega)]
+    exact congrArg some (by omega)
+
+theorem hex4_u4 (n : Nat) (h : n < 65536) :
+    hex4 (hexDig (n / 4096 % 16)) (hexDig (n / 256 % 16)) (hexDig (n / 16 % 16)) (hexDig (n % 16)) = some n := by
+  have a := hexVal_hexDig' (n / 4096 % 16) (by omega)
+  have b := hexVal_hexDig' (n / 256 % 16) (by omega)
+  have c := hexVal_hexDig' (n / 16 % 16) (by omega)
+  have d := hexVal_hexDig' (n % 16) (by omega)
+  unfold hex4
+  rw [a, b, c, d]
+  exact congrArg some (by omega)
+
+theorem n92 : UInt8.toNat 92 = 92 := rfl
+theorem n117 : UInt8.toNat 117 = 117 := rfl
+
+/-- reading `\\uXXXX` of a non-surrogate -/
+theorem pStr_u4 (n : Nat) (s : Bytes) (h : n < 0xD800 ∨ (0xE000 ≤ n ∧ n < 0x10000)) :
+    pStr (u4 n ++ s) = consC (Char.ofNat n) true (pStr s) := by
+  unfold u4
+  simp only [List.cons_append, List.nil_append]
+  rw [pStr.eq_def]
+  dsimp only
+  simp only [n92, n117, ↓reduceIte, hex4_u4 n (by omega)]
+  have a0 : ¬ ((92 : Nat) = 34) := by decide
+  have a1 : ¬ (55296 ≤ n ∧ n < 56320) := by omega
+  have a2 : ¬ (56320 ≤ n ∧ n < 57344) := by omega
+  simp only [a0, a1, a2, ↓reduceIte]
+
+set_option maxRecDepth 20000 in
+/-- reading a surrogate pair -/
+theorem pStr_u4_pair (n : Nat) (s : Bytes) (h1 : 0x10000 ≤ n) (h2 : n < 0x110000) :
+    pStr (u4 (0xD800 + (n - 0x10000) / 1024) ++ u4 (0xDC00 + (n - 0x10000) % 1024) ++ s)
+      = consC (Char.ofNat n) true (pStr s) := by
+  unfold u4
+  simp only [List.cons_append, List.nil_append]
+  rw [pStr.eq_def]
+  dsimp only
+  simp only [n92, n117, ↓reduceIte, hex4_u4 (0xD800 + (n - 0x10000) / 1024) (by omega), hex4_u4 (0xDC00 + (n - 0x10000) % 1024) (by omega)]
+  have a0 : ¬ ((92 : Nat) = 34) := by decide
+  have b1 : 55296 ≤ 55296 + (n - 65536) / 1024 ∧ 55296 + (n - 65536) / 1024 < 56320 := by omega
+  have b3 : 56320 ≤ 56320 + (n - 65536) % 1024 ∧ 56320 + (n - 65536) % 1024 < 57344 := by omega
+  have e : 0x10000 + (0xD800 + (n - 0x10000) / 1024 - 0xD800) * 1024 + (0xDC00 + (n - 0x10000) % 1024 - 0xDC00) = n := by omega
+  simp only [a0, b1, b3, and_self, e, ↓reduceIte]
+
+
+theorem char_of_toNat (c : Char) (k : Nat) (h : c.toNat = k) : c = Char.ofNat k := by
+  rw [← h, Char.ofNat_toNat]
+
+theorem pStr_simple (e : UInt8) (c : Char) (s : Bytes) (he : e.toNat ≠ 0x75) (hs : simpleEsc e = some c) :
+    pStr (0x5c :: e :: s) = consC c true (pStr s) := by
+  rw [pStr.eq_def]
+  dsimp only
+  have a0 : ¬ ((92 : Nat) = 34) := by decide
+  simp only [n92, a0, he, hs, ↓reduceIte]
+
+/-- one printed character reads back as itself -/
+theorem pStr_escChar (a : Bool) (c : Char) (s : Bytes) :
+    ∃ e, pStr (escChar a c ++ s) = consC c e (pStr s) := by
+  have hr := char_range c
+  have hc : Char.ofNat c.toNat = c := Char.ofNat_toNat c
+  unfold escChar
+  dsimp only
+  split
+  · next h => exact ⟨true, by rw [char_of_toNat c _ h]; exact pStr_simple 0x22 _ s (by decide) rfl⟩
+  split
+  · next h => exact ⟨true, by rw [char_of_toNat c _ h]; exact pStr_simple 0x5c _ s (by decide) rfl⟩
+  split
+  · next h => exact ⟨true, by rw [char_of_toNat c _ h]; exact pStr_simple 0x62 _ s (by decide) rfl⟩
+  split
+  · next h => exact ⟨true, by rw [char_of_toNat c _ h]; exact pStr_simple 0x66 _ s (by decide) rfl⟩
+  split
+  · next h => exact ⟨true, by rw [char_of_toNat c _ h]; exact pStr_simple 0x6e _ s (by decide) rfl⟩
+  split
+  · next h => exact ⟨true, by rw [char_of_toNat c _ h]; exact pStr_simple 0x72 _ s (by decide) rfl⟩
+  split
+  · next h => exact ⟨true, by rw [char_of_toNat c _ h]; exact pStr_simple 0x74 _ s (by decide) rfl⟩
+  split
+  · next h => exact ⟨true, by rw [pStr_u4 c.toNat s (by omega), hc]⟩
+  split
+  · next h =>
+    split
+    · next h2 => exact ⟨true, by rw [pStr_u4 c.toNat s (by omega), hc]⟩
+    · next h2 => exact ⟨true, by rw [pStr_u4_pair c.toNat s (by omega) (by omega), hc]⟩
+  · next h1 h2 h3 h4 h5 h6 h7 h8 h9 =>
+    refine ⟨false, pStr_utf8 c s ?_⟩
+    simp only [mustEscape, Bool.or_eq_false_iff, decide_eq_false_iff_not]
+    omega
+
+theorem pStr_quote (s : Bytes) : pStr (0x22 :: s) = .ok ([], false, s) := by
+  rw [pStr.eq_def]; rfl
+
+theorem pStr_escBody (a : Bool) (cs : List Char) (s : Bytes) :
+    ∃ e, pStr (escBody a cs ++ 0x22 :: s) = .ok (cs, e, s) := by
+  induction cs with
+  | nil => exact ⟨false, by simpa [escBody] using pStr_quote s⟩
+  | cons c cs ih =>
+    obtain ⟨e1, h1⟩ := pStr_escChar a c (escBody a cs ++ 0x22 :: s)
+    obtain ⟨e2, h2⟩ := ih
+    refine ⟨e1 || e2, ?_⟩
+    simp only [escBody, List.append_assoc]
+    rw [h1, h2]
+    rfl
+
+theorem pStr_rawBody (cs : List Char) (s : Bytes) (h : cs.all (fun c => !mustEscape c) = true) :
+    pStr (rawBody cs ++ 0x22 :: s) = .ok (cs, false, s) := by
+  induction cs with
+  | nil => simpa [rawBody] using pStr_quote s
+  | cons c cs ih =>
+    simp only [List.all_cons, Bool.and_eq_true, Bool.not_eq_true'] at h
+    simp only [rawBody, List.append_assoc]
+    rw [pStr_utf8 c _ h.1, ih h.2]
+    rfl
+
+/-- a printed string (either spelling) reads back as its scalars -/
+theorem pStr_strBytes (c : Cfg) (k : Str) (s : Bytes) (hk : k.wf = true) :
+    ∃ e, strBytes c k ++ s = 0x22 :: (strBytes c k ++ s).tail ∧ pStr ((strBytes c k ++ s).tail) = .ok (k.cs, e, s) := by
+  unfold strBytes
+  split
+  · next h =>
+    simp only [Bool.and_eq_true, Bool.not_eq_true'] at h
+    have hw : k.cs.all (fun c => !mustEscape c) = true := by
+      simp only [Str.wf, h.2, Bool.false_or] at hk; exact hk
+    exact ⟨false, rfl, by simpa using pStr_rawBody k.cs s hw⟩
+  · obtain ⟨e, he⟩ := pStr_escBody c.ascii k.cs s
+    exact ⟨e, rfl, by simpa using he⟩
 
 end SV.JqOut
